@@ -26,7 +26,7 @@ for d in sorted(glob.glob(os.path.join(ROOT, 'seeded', '*'))):
             short.append(o)
         else:
             kinds.add('deductive')
-            short.append(o.split(':')[-1])
+            short.append(o.split(':', 1)[1] if ':' in o else o)
     order = [k for k in ('deductive', 'ground', 'bounded') if k in kinds]
     shown = '; '.join(short[:3]) + (' …(+%d)' % (len(short) - 3) if len(short) > 3 else '')
     rows.append('| %s | %s | %s | %s | %s |' % (name, ', '.join(f.replace('pedal/', '') for f in files), det['check_exit'],
